@@ -110,8 +110,8 @@ def run(tier, seed, repo_results_prefix="fuzz"):
             r.stats["fuzz_executions"] += int(m.group(1)) if m else 0
             covs = re.findall(r"cov: (\d+) ft: (\d+) corp: (\d+)", log)
             if covs:
-                r.stats["fuzz_edge_coverage_max"] = int(covs[-1][0])
-                r.stats["fuzz_features_max"] = int(covs[-1][1])
+                r.stats["fuzz_edge_coverage_summed_over_workers"] = int(covs[-1][0])
+                r.stats["fuzz_features_summed_over_workers"] = int(covs[-1][1])
                 r.sigs.add(("fuzz-coverage-bucket", w, int(covs[-1][0]) // 100))
             arts = [a for a in glob.glob(os.path.join(wd, "*")) if os.path.basename(a).startswith(("crash-", "leak-", "timeout-", "oom-"))]
             if rc == "watchdog":
